@@ -1085,6 +1085,7 @@ impl World for StoreWorld {
                 "TTL expiry is three-valued at now == created + ttl and whenever the clock ticked across the expiry during a call; whether update() refreshes a TTL is left open".into(),
                 "an evicted checkpoint may restore exactly or fail; a checkpoint() that refuses without a fault is counted, not judged".into(),
             ],
+            hang_is_a_verdict: true,
             required_probes: vec![
                 "fault.eio",
                 "fault.enospc",
